@@ -154,6 +154,12 @@ def run_shards(pid, shards, tier, seed, timeout=900, nproc=None):
     try:
         while pending or running:
             while pending and len(running) < nproc:
+                # shards marked {"exclusive": True} (they load the machine on purpose) only start when
+                # nothing else is running, and nothing else starts while they run
+                nxt_excl = bool(isinstance(pending[0][1], dict) and pending[0][1].get("exclusive"))
+                run_excl = any(isinstance(r[4], dict) and r[4].get("exclusive") for r in running.values())
+                if running and nxt_excl != run_excl:
+                    break
                 i, sh = pending.pop(0)
                 sf = os.path.join(tmp, "s%d.json" % i)
                 of = os.path.join(tmp, "o%d.json" % i)
